@@ -261,7 +261,7 @@ Lemma after_mark_back t0 mk mt s rest : body_ok t0 -> not_dot rest ->
       wbind (pop_reference s) (fun r s1 => WOk (mkTag mk mt (TagRef r) (ref_start r) (ref_end r)) s1)
     | STRING =>
       wbind (pop_value_top s) (fun v s1 => WOk (mkTag mk mt (TagVal v) (value_start v) (value_end v)) s1)
-    | _ => wbind (pop_token s) (fun t s1 => WErr t s1)
+    | _ => wbind (pop_token s) (fun t s1 => WErr t (Expected exp_tag) s1)
     end = WOk t s' /\ tmark t = mk /\ snd (tag_doc t) = snd (tag_doc t0) /\ pt s' = rest.
 Proof.
   unfold body_ok. intros Hb Hd Hp. destruct (tbody t0) as [r0|[tk s0 e0|vs s0 e0]] eqn:Eb; [| |contradiction].
@@ -274,7 +274,7 @@ Proof.
     assert (Hn : next_type s = STRING) by (rewrite next_type_pt, Hp; reflexivity).
     rewrite Hn.
     assert (Hv : vlx (VTok (mkTok STRING (lit tk) pos0 pos0) pos0 pos0)) by (constructor; [exact I|reflexivity]).
-    destruct (pop_value_top_back _ s rest Hv ltac:(cbn; unfold max_value_depth; lia) Hp) as (v & s' & E & Hdv & Hp'). rewrite E. cbn [wbind].
+    destruct (pop_value_top_back _ s rest Hv ltac:(cbn [vdepth]; apply N.le_0_l) Hp) as (v & s' & E & Hdv & Hp'). rewrite E. cbn [wbind].
     eexists _, s'. split; [reflexivity|]. unfold tag_doc. cbn. rewrite Eb, Hdv. cbn. unfold etok. cbn. rewrite Hb. auto.
 Qed.
 
